@@ -120,10 +120,20 @@ public:
         opn2_switchEmulator(dev, (int)p.get("emu", 2));
         opn2_setLoopEnabled(dev, loopOn ? 1 : 0);
         opn2_setLoopCount(dev, count);     // before loading: the count is latched when the time line is built
-        auto setHooks = [&]() { opn2_setLoopStartHook(dev, RawRecorder::cbLoopStart, &rec); opn2_setLoopEndHook(dev, RawRecorder::cbLoopEnd, &rec); };
+        rec.initHookUd();
+        auto setHooks = [&]() { opn2_setLoopStartHook(dev, RawRecorder::cbLoopStart2, &rec.udStart); opn2_setLoopEndHook(dev, RawRecorder::cbLoopEnd2, &rec.udEnd); };
         opn2_setRawEventHook(dev, RawRecorder::cb, &rec);
         if(hookpoint == 0 || hookpoint == 2 || hookpoint == 4) { setHooks(); run.count("hooks_before_load"); }
-        if(hookpoint == 4) { std::vector<uint8_t> other = stockSong(7, 0); opn2_openData(dev, other.data(), (unsigned long)other.size()); }
+        if(hookpoint == 4)
+        {
+            // another song first; half of the time one that uses the other loop-marker convention (CC110 start / CC111 end):
+            // whatever the loader learned from it must not leak into the song under test
+            std::vector<uint8_t> other = stockSong(7, 0);
+            if(sr.chance(0.5)) { Rng orr(mix64((uint64_t)p.get("songseed"), 0x110)); SongOpts oo; oo.maxTracks = 1; oo.maxEventsPerTrack = 12; oo.maxSeconds = 2.0; oo.eotVariants = false; Song os = genSong(orr, oo);
+                STrack &ot = os.tracks[0]; uint32_t endT = ot.ev.empty() ? 10 : ot.ev.back().tick + 1; SEvent a; a.status = 0xB0; a.ch = 0; a.d1 = 110; a.d2 = 0; a.tick = 0; SEvent b = a; b.d1 = 111; b.tick = endT; ot.ev.insert(ot.ev.begin(), a); ot.ev.push_back(b); ot.hasEOT = true; ot.eotTick = endT;
+                other = writeSmf(os, false); run.count("prior_song_with_cc110_convention"); }
+            opn2_openData(dev, other.data(), (unsigned long)other.size());
+        }
         if(opn2_openData(dev, smf.data(), (unsigned long)smf.size()) != 0) { run.fail("wellformed-smf-rejected", "load", opn2_errorInfo(dev)); opn2_close(dev); return; }
         if(hookpoint == 1 || hookpoint == 3) setHooks();
         if(hookpoint == 2) { opn2_reset(dev); run.count("hooks_across_reset"); }
@@ -242,7 +252,8 @@ public:
                 bool endIsSongEnd = wholeSong || !li.hasLE;
                 uint64_t wantEnds = endIsSongEnd ? (uint64_t)passesWanted : (uint64_t)passesWanted + 1;
                 uint64_t wantStarts = (uint64_t)passesWanted;
-                if(rec.loopEnds != wantEnds)
+                if(rec.wrongUserData) run.fail("loop-hook-user-data", "swapped", std::to_string(rec.wrongUserData) + " loop callbacks were called with the other hook's user data");
+                else if(rec.loopEnds != wantEnds)
                     run.fail("loop-end-hook-count", std::string(rec.loopEnds == 0 ? "never-called" : "wrong-count") + ".hookpoint" + std::to_string(hookpoint), "loop-end callback called " + std::to_string(rec.loopEnds) + " times, expected " + std::to_string(wantEnds) + " (passes " + std::to_string(passesWanted) + ", placement " + std::to_string(placement) + ")");
                 else if(rec.loopStarts != wantStarts)
                 {
